@@ -30,6 +30,7 @@ FIELDS = {
     "granted": ("granted", "Bool"), "capacity": ("capacity", "Int"), "condvar": ("condvar", "Int"),
     "min": ("min", "Int"), "max": ("max", "Int"),
 }
+AID_FIELDS = ("sender", "receiver", "owner")    # members of type mc::Aid whose INVALID value is modelled as -1
 FIELD_ORDER = ["aid", "comm", "mbox", "tag", "sender", "receiver", "timeout", "is_sender", "target", "child", "bar",
                "mutex", "owner", "sem", "granted", "capacity", "condvar", "min", "max"]
 
@@ -77,7 +78,7 @@ def function_body(src, header_re):
 
 # ----------------------------------------------------------------------------------------------- tokenizer / parser
 TOK = re.compile(r'\s*(?:("(?:[^"\\]|\\.)*")|([A-Za-z_][A-Za-z_0-9]*(?:::[A-Za-z_][A-Za-z_0-9]*)*)|(\d+)|'
-                 r'(->|==|!=|&&|\|\||\[\[|\]\]|[!(){}<>*;,:=?]))')
+                 r'(->|==|!=|&&|\|\||\[\[|\]\]|[!(){}<>*;,:=?.]))')
 
 
 def tokenize(s):
@@ -241,7 +242,16 @@ class Parser:
             self.err("depends() on unexpected class %s" % cls)
         if args is not None:
             self.err("unexpected call arguments")
-        return self.member(var, cls, name, call)
+        m = self.member(var, cls, name, call)
+        if self.at("."):
+            # `x->get_sender().has_value()` on an `Aid` member (Aid.hpp: `value_ != INVALID_VALUE`); Base holds `c_val()`, -1 = INVALID
+            self.take(".")
+            meth = self.take(kind="id")
+            self.take("("); self.take(")")
+            if meth != "has_value" or m.split(".")[-1] not in AID_FIELDS:
+                self.err("only Aid::has_value() is supported on a member, got .%s() on %s" % (meth, m))
+            return "(%s != -1)" % m
+        return m
 
     def member(self, var, cls, name, call):
         if call:
